@@ -21,6 +21,9 @@ CHECKS = {
  "C06": ("operation-history search (E2): every Add/Remove/Merge sequence up to depth d over a 12-atom universe on 9 store constructions, all observers in every reached state against a set model",
          "bounded-exhaustive: every history up to the depth bound is replayed on a fresh real store; return values, Contains for all atoms, GetFacts for all patterns (exactly-once), ListPredicates and EstimateFactCount are compared with a structural set model in every state",
          "set model = Go map keyed by verifmc/oracle structural key; wrappers modelled as read part + write part; teeing Merge writes through (required by the repo's own test); violations that coincide with a set keyed by Atom.Hash() are attributed to known finding F8", "4 C06"),
+ "C13": ("operation-history search (E2): every insertion sequence up to depth d over 34 intervals (nanosecond timeline) and every insertion order of fixed interval sets, on the real TemporalStore and IntervalTree, all queries compared with a pointwise integer model; then Coalesce and its invariants",
+         "bounded-exhaustive: every history in scope is replayed on a fresh store; every point, range and scan query, ContainsAt, counts, Add results and limit errors are compared with the model, then Coalesce is applied and instants-preserved / disjoint-non-adjacent / count are checked",
+         "integer interval model; the limit-before-duplicate order of Add is accepted as documented; hash-colliding atoms attributed to known finding F8", "4 C13"),
 }
 NOT_APPLICABLE = {
 }
